@@ -1,0 +1,1 @@
+//! Hooks owned by property C07 (feature `verif-hooks`).
